@@ -53,6 +53,12 @@ class C04(framework.PropertyCheck):
                 starts = [[i] for i in range(lens[0])]
             case = {'tids': tids, 'lens': lens, 'seeds': [rng.randrange(1 << 30) for _ in tids], 'c': c, 'starts': starts,
                     'body': rng.choice(['print', 'acc', 'timeframe', 'value'])}
+            if ntr == 1 and rng.random() < 0.2:
+                # an offset inside an offset: near the end the outer position exists while the inner one does not
+                sig = rng.choice(['top.clk', 'top.cnt', 'top.d_valid'])
+                j, k2 = rng.choice([(1, 1), (1, 2), (2, 1), (-1, -1), (1, -1)])
+                case['c'] = rng.choice([f'(! (reval (reval {sig} {j}) {k2}))', f'(= (reval (reval {sig} {j}) {k2}) #f)',
+                                        f'(|| (reval (! (reval {sig} {j})) {k2}) {c})'])
             if rng.random() < 0.3:
                 case['limit'] = rng.randint(1, 2)
             if ntr == 1 and rng.random() < 0.2:
